@@ -268,20 +268,29 @@ func RunCase(c *corr.Ctx, sc *StreamCase) {
 		}
 	}
 	add("frame reset", "ok")
-	if sc.Carrier != "b64" {
-		src := stream
-		if sc.Carrier == "tunnel" {
-			src, _, _, _ = readB64(stream, nil, 4096)
-		}
-		for _, op := range urlOps(src) {
-			add(op, "ok")
-		}
-	}
-	add("frame stream "+hx(stream), "ok")
 	parts := sc.Parts
 	if len(parts) == 0 {
 		parts = [][]int{{}}
 	}
+	if sc.Carrier == "direct" {
+		for _, op := range urlOps(stream) {
+			add(op, "ok")
+		}
+	} else if sc.Carrier == "tunnel" {
+		// the URL tokens of what the real base64 reader delivers (a malformed base64 stream may
+		// decode differently under different partitions)
+		seen := map[string]bool{}
+		for _, sizes := range parts {
+			src, _, _, _ := readB64(stream, sizes, 4096)
+			for _, op := range urlOps(src) {
+				if !seen[op] {
+					seen[op] = true
+					add(op, "ok")
+				}
+			}
+		}
+	}
+	add("frame stream "+hx(stream), "ok")
 	var first string
 	for pi, sizes := range parts {
 		switch sc.Carrier {
@@ -294,7 +303,7 @@ func RunCase(c *corr.Ctx, sc *StreamCase) {
 			add("frame b64 "+sizesArg(reads), line)
 			if pi == 0 {
 				first = line
-			} else if line != first {
+			} else if line != first && sc.Plain != "" {
 				viol(c, sc, "the decoded stream does not depend on how the byte stream is split into reads", "b64-partition-dependent",
 					fmt.Sprintf("partition %d: %s vs partition 0: %s", pi, trunc(line), trunc(first)))
 			}
@@ -320,7 +329,7 @@ func RunCase(c *corr.Ctx, sc *StreamCase) {
 			}
 			if pi == 0 {
 				first = line
-			} else if line != first {
+			} else if line != first && (sc.Carrier == "direct" || sc.Written) {
 				viol(c, sc, "the element sequence does not depend on how the byte stream is split into reads", "conn-partition-dependent",
 					fmt.Sprintf("partition %d (%v): %s vs partition 0: %s", pi, truncInts(sizes), trunc(line), trunc(first)))
 			}
